@@ -187,17 +187,30 @@ func recordArtifacts(paths []string, hashAlgorithms []string, gitignorePatterns 
 					visitedSymlinks.Add(path)
 					// We recursively call recordArtifacts() to follow
 					// the new path.
-					evalArtifacts, evalErr := recordArtifacts([]string{evalSym}, hashAlgorithms, gitignorePatterns, lStripPaths, lineNormalization, followSymlinkDirs)
+					// The artifacts below the target are renamed to the symlink's path
+					// and stripped here, so they must come back with their full paths
+					evalArtifacts, evalErr := recordArtifacts([]string{evalSym}, hashAlgorithms, gitignorePatterns, nil, lineNormalization, followSymlinkDirs)
 					if evalErr != nil {
 						return evalErr
 					}
 					for key, value := range evalArtifacts {
+						// Name the artifact by the path of the symlink and treat that
+						// name like the name of a regular file: left strip it and
+						// make sure it is unique
+						name := path
 						if targetIsDir {
-							symlinkPath := filepath.Join(path, strings.TrimPrefix(key, evalSym))
-							artifacts[symlinkPath] = value
-						} else {
-							artifacts[path] = value
+							name = filepath.Join(path, strings.TrimPrefix(key, evalSym))
 						}
+						for _, strip := range lStripPaths {
+							if strings.HasPrefix(name, strip) {
+								name = strings.TrimPrefix(name, strip)
+								break
+							}
+						}
+						if _, exists := artifacts[name]; exists {
+							return fmt.Errorf("left stripping has resulted in non unique dictionary key: %s", name)
+						}
+						artifacts[name] = value
 					}
 					return nil
 				}
